@@ -69,6 +69,10 @@ type Inv struct {
 	Hook     *Hook    `json:"hook,omitempty"`
 	ExpMs    *int64   `json:"exp_ms,omitempty"` // milliseconds relative to the instant of construction (clock histories only)
 	EncMeta  []EncKV  `json:"enc_meta,omitempty"`
+	// CommonArgs > 0: the first CommonArgs arguments are handed over as ONE *args.Args through WithArguments (the
+	// same object for every invocation of a run that starts with the same arguments - a caller deriving several
+	// invocations from a common argument set), the remaining ones through WithArgument
+	CommonArgs int `json:"common_args,omitempty"`
 }
 
 // EncKV is an encrypted metadata entry (key = 32 x KeyByte).
@@ -339,13 +343,31 @@ func Build(c Case) (*Built, error) {
 	return b, nil
 }
 
-func BuildInv(iv Inv, prf []cid.Cid) (*invocation.Token, error) {
+func BuildInv(iv Inv, prf []cid.Cid) (*invocation.Token, error) { return BuildInvShared(iv, prf, nil) }
+
+// BuildInvShared is BuildInv with a registry of common argument objects shared between the invocations of a run.
+func BuildInvShared(iv Inv, prf []cid.Cid, reg map[string]*args.Args) (*invocation.Token, error) {
 	cmd, err := command.Parse(iv.Cmd)
 	if err != nil {
 		return nil, fmt.Errorf("inv command %q: %w", iv.Cmd, err)
 	}
 	opts := []invocation.Option{invocation.WithNonce(nonce("inv", 0, iv.NonceLen))}
-	for _, e := range iv.Args {
+	rest := iv.Args
+	if n := iv.CommonArgs; n > 0 && n <= len(iv.Args) {
+		key, _ := json.Marshal(iv.Args[:n])
+		common := reg[string(key)]
+		if common == nil {
+			if common, err = BuildArgs(iv.Args[:n]); err != nil {
+				return nil, err
+			}
+			if reg != nil {
+				reg[string(key)] = common
+			}
+		}
+		opts = append(opts, invocation.WithArguments(common))
+		rest = iv.Args[n:]
+	}
+	for _, e := range rest {
 		opts = append(opts, invocation.WithArgument(e.K, e.V.Node()))
 	}
 	if iv.Aud >= 0 {
@@ -417,6 +439,23 @@ func Decide(b *Built, hook *Hook) Decision {
 			return BuildArgs(hook.Args)
 		})
 	})
+	if p {
+		d.Panicked, d.Panic = true, fmt.Sprint(v)
+		return d
+	}
+	if err != nil {
+		d.Err = err.Error()
+		return d
+	}
+	d.Allowed = true
+	return d
+}
+
+// DecideWithHookFn runs the hook variant with the caller's own hook function.
+func DecideWithHookFn(b *Built, fn func(args.ReadOnly) (*args.Args, error)) Decision {
+	var d Decision
+	var err error
+	p, v, _ := h.Try(func() { err = b.Inv.ExecutionAllowedWithArgsHook(b.Loader, fn) })
 	if p {
 		d.Panicked, d.Panic = true, fmt.Sprint(v)
 		return d
